@@ -356,6 +356,27 @@ def random_pair_case(rng) -> Dict[str, Any]:
     return case
 
 
+def feedback_case(rng) -> Dict[str, Any]:
+    """A loop x -> y -> x in which an assumption of one side constrains the variable the other side drives (the
+    composition must be refused as feedback, whatever the contents - also when the guarantees contradict each other)."""
+    unsat = rng.random() < 0.6
+    d = 1.0 if unsat else 0.0
+    c1 = {"in": ["y"], "out": ["x"], "a": [], "g": [gen.T({"x": 1.0, "y": -1.0}, d), gen.T({"x": -1.0, "y": 1.0}, -d)]}
+    c2 = {"in": ["x"], "out": ["y"], "a": [], "g": [gen.T({"y": 1.0, "x": -1.0}, d), gen.T({"y": -1.0, "x": 1.0}, -d)]}
+    if rng.random() < 0.3:
+        c1["in"].append("i1")
+        c1["g"].append(gen.T({"x": 1.0, "i1": -1.0}, 3.0))
+    who = rng.choice(["first", "second", "both"])
+    if who in ("first", "both"):
+        c1["a"] = [gen.T({"y": rng.choice([1.0, -1.0])}, float(rng.randint(2, 6)))]
+    if who in ("second", "both"):
+        c2["a"] = [gen.T({"x": rng.choice([1.0, -1.0])}, float(rng.randint(2, 6)))]
+    if rng.random() < 0.5:
+        c1, c2 = c2, c1
+    return {"kind": "random_pair", "family": "feedback", "c1": c1, "c2": c2, "keep": [], "simplify": rng.random() < 0.7,
+            "order": gen.rorder(rng), "addl": []}
+
+
 def run_case(ctx: Ctx, case: Dict[str, Any]) -> None:
     install_invariant()
     k = case.get("kind")
@@ -372,6 +393,8 @@ def run_case(ctx: Ctx, case: Dict[str, Any]) -> None:
 
 def blend_case(rng) -> Dict[str, Any]:
     r = rng.random()
+    if r < 0.08:
+        return feedback_case(rng)
     if r < 0.3:
         return constructor_case(rng)
     if r < 0.5:
@@ -424,6 +447,9 @@ def run(ctx: Ctx) -> None:
         run_case(ctx, constructor_case(ctx.rng))
     for _ in range(ctx.n(3000, 40000)):
         run_case(ctx, rename_case(ctx.rng))
+    for _ in range(ctx.n(1200, 12000)):
+        run_case(ctx, feedback_case(ctx.rng))
+        ctx.count("feedback_cases")
     for _ in range(ctx.n(4000, 60000)):
         if ctx.out_of_time():
             break
